@@ -152,10 +152,17 @@ func init() {
 			for q := 0; q < 6; q++ {
 				jobs = append(jobs, Job{Dir: "z80", Harness: "VC04PushPop", Params: []int{q}, Label: fmt.Sprintf("VC04PushPop/q%d", q)})
 			}
+			// a call/push/jump followed, on the same CPU but on entirely fresh memory, by a
+			// return/pop: the return address is whatever memory holds now
+			for _, x := range encsOf("call", "stack", "jump") {
+				for _, y := range encsOf("ret", "stack") {
+					jobs = append(jobs, Job{Dir: "z80", Harness: "VStep2", Params: []int{x.Tbl, x.Op, y.Tbl, y.Op}, Label: fmt.Sprintf("VStep2/%s/%s", x, y)})
+				}
+			}
 			return jobs
 		},
 		Only: func(job Job, a string) bool {
-			if job.Harness != "VStep" {
+			if job.Harness != "VStep" && job.Harness != "VStep2" {
 				return true
 			}
 			return inSet(a, "A", "F", "BC", "DE", "HL", "IX", "IY", "SP", "PC", "mem", "tracelen", "trace")
@@ -178,6 +185,11 @@ func init() {
 				nilio = allEncodings()
 			}
 			jobs = append(jobs, stepJobs(nilio, "VC05NilIO")...)
+			// the same instruction again on the same CPU object but on entirely fresh memory:
+			// every byte is read again (nothing about memory is remembered between Steps)
+			for _, x := range allEncodings() {
+				jobs = append(jobs, Job{Dir: "z80", Harness: "VStep2", Params: []int{x.Tbl, x.Op, x.Tbl, x.Op}, Label: fmt.Sprintf("VStep2/%s/%s", x, x)})
+			}
 			return jobs
 		},
 		Only: func(job Job, a string) bool {
@@ -254,11 +266,17 @@ func init() {
 			jobs := stepJobs(allEncodings(), "VC10")
 			for kind := 0; kind <= 1; kind++ {
 				for _, im := range []int{0, 1, 2, 7} {
-					for n := 0; n <= 2; n++ {
+					for n := 0; n <= 3; n++ {
 						if kind == 0 && im != 1 {
 							continue
 						}
-						jobs = append(jobs, Job{Dir: "z80", Harness: "VC10Req", Params: []int{kind, im, n}, Label: fmt.Sprintf("VC10Req/k%d/im%d/n%d", kind, im, n)})
+						d0s := []int{0xff}
+						if kind == 1 && im == 0 && n > 0 {
+							d0s = []int{0xff, 0xcd, 0x7e, 0x3a, 0x36}
+						}
+						for _, d0 := range d0s {
+							jobs = append(jobs, Job{Dir: "z80", Harness: "VC10Req", Params: []int{kind, im, n, d0}, Label: fmt.Sprintf("VC10Req/k%d/im%d/n%d/d%02x", kind, im, n, d0)})
+						}
 					}
 				}
 			}
@@ -362,13 +380,20 @@ func init() {
 			jobs = append(jobs, stepJobs(allEncodings(), "VStep")...)
 			// histories of depth 2: any instruction, then a request at the boundary after it
 			for kind := 0; kind <= 1; kind++ {
-				for _, j := range stepJobs(allEncodings(), "VC06After", kind) {
-					// IM 0 / IM 2 followed by a mode-1 request: the harness's assumption
-					// "mode 1 at the boundary" cannot hold, the job would be vacuous
-					if kind == 1 && j.Params[0] == 2 && (j.Params[1] == 0x46 || j.Params[1] == 0x5e) {
-						continue
+				for pre := 0; pre <= 1; pre++ {
+					encs := allEncodings()
+					if pre == 1 && tier != "thorough" {
+						encs = append(reprEncs(), encsOf("ctl", "ir")...)
 					}
-					jobs = append(jobs, j)
+					for _, j := range stepJobs(encs, "VC06After", kind, pre) {
+						// IM 0 / IM 2 followed by a mode-1 request: the harness's assumption
+						// "mode 1 at the boundary" cannot hold, the job would be vacuous
+						if kind == 1 && j.Params[0] == 2 && (j.Params[1] == 0x46 || j.Params[1] == 0x5e) {
+							continue
+						}
+						j.Label += fmt.Sprintf("/pre%d", pre)
+						jobs = append(jobs, j)
+					}
 				}
 			}
 			mk("VC06Ctor", "ctor")
@@ -514,6 +539,22 @@ func init() {
 				jobs = append(jobs, stepJobs(encs, "VC12DumbCut", k)...)
 			}
 			jobs = append(jobs, stepJobs(encs, "VC12Map")...)
+			// histories of unsupported encodings on one CPU (12 distinct, then two of them again)
+			for _, tbl := range []int{2, 3, 4, 5} {
+				var inv []int
+				for _, e := range encsOf("invalid") {
+					if e.Tbl == tbl && !(tbl != 2 && (e.Op == 0xdd || e.Op == 0xfd || e.Op == 0xed || e.Op == 0xcb)) {
+						inv = append(inv, e.Op)
+					}
+				}
+				for start := 0; start+12 <= len(inv); start += 12 {
+					ps := append([]int{tbl}, inv[start:start+12]...)
+					jobs = append(jobs, Job{Dir: "z80", Harness: "VC12Hist", Params: ps, Label: fmt.Sprintf("VC12Hist/t%d/from%02x", tbl, inv[start]), MaxForks: 64})
+					if tier != "thorough" {
+						break
+					}
+				}
+			}
 			// Run returns once its program halts: scripted programs incl. HALT, any IM, a
 			// maskable request pending at entry (accepted, refused or never consumable)
 			jobs = append(jobs, Job{Dir: "z80", Harness: "VC08Script", Params: []int{0, 3, 2}, Label: "VC08Script/run-returns-on-halt/any-im", MaxForks: 4096, MaxPaths: 100000})
@@ -597,6 +638,14 @@ func init() {
 			for p := 0; p <= 14; p++ {
 				jobs = append(jobs, Job{Dir: "z80", Harness: "VC08Prog", Params: []int{p}, Label: fmt.Sprintf("VC08Prog/%d", p), MaxForks: 256})
 			}
+			// Run; change the breakpoint set (new map / same map edited in place); Run again
+			for mode := 0; mode <= 1; mode++ {
+				kk := 3
+				if tier == "thorough" {
+					kk = 5
+				}
+				jobs = append(jobs, Job{Dir: "z80", Harness: "VC08Twice", Params: []int{mode, kk}, Label: fmt.Sprintf("VC08Twice/mode%d/k%d", mode, kk), MaxForks: 4096, MaxPaths: 100000})
+			}
 			// Run started on any encoding X, then HALTs: first iteration = Step(X) + stop rule
 			for intr := 0; intr <= 2; intr++ {
 				encs := allEncodings()
@@ -639,6 +688,12 @@ func init() {
 						}
 					}
 					jobs = append(jobs, Job{Dir: "z80", Harness: "VC13Script", Params: []int{at, kk, bp}, Label: fmt.Sprintf("VC13Script/at%d/k%d/bp%d", at, kk, bp), MaxForks: 4096, MaxPaths: 100000})
+				}
+			}
+			// Run; the caller cancels the first context; Run again on the same CPU (eager and lazy schedule)
+			for lazy := 0; lazy <= 1; lazy++ {
+				for at := 0; at < 2; at++ {
+					jobs = append(jobs, Job{Dir: "z80", Harness: "VC13Twice", Params: []int{lazy, at, 3}, Label: fmt.Sprintf("VC13Twice/lazy%d/at%d/k3", lazy, at), MaxForks: 1024, MaxPaths: 20000})
 				}
 			}
 			// never-ending programs on an address-consistent bus, cancelled at the at-th bus access
@@ -774,6 +829,9 @@ func init() {
 			mk("VC18Seq")
 			mk("VC18WarmBoot")
 			mk("VC18IO")
+			for kinds := 0; kinds <= 3; kinds++ {
+				mk("VC18Reconfig", kinds)
+			}
 			return jobs
 		},
 		Bounds: map[string]interface{}{"steps": "<= 10+6n (n <= 3, thorough 5) per call", "symbolic": "call site anywhere outside the BIOS pages, SP, all registers, the whole program area, string address and bytes (any value but '$', 0x00 and >= 0x80 included)", "strings": "length 0..3 (thorough 5) end to end; longer only via the per-character lemma at the loop head 0xFE14 + induction (paper step)"},
